@@ -88,6 +88,13 @@ SEED = {
  # round f (task-harness.md section 14)
  "seedpatch-C05-f": ("C05", "/verif/seeded/C05-f/patch.diff"),
  "seedpatch-C01-f": ("C01", "/verif/seeded/C01-f/patch.diff"),
+ # round g (task-harness.md section 15)
+ "seedpatch-C03-g": ("C03", "/verif/seeded/C03-g/patch.diff"),
+ "seedpatch-C02-g": ("C02", "/verif/seeded/C02-g/patch.diff"),
+ "seedpatch-C05-g": ("C05", "/verif/seeded/C05-g/patch.diff"),
+ "seedpatch-C06-g": ("C06", "/verif/seeded/C06-g/patch.diff"),
+ "seedpatch-C04-g": ("C04", "/verif/seeded/C04-g/patch.diff"),
+ "seedpatch-C01-g": ("C01", "/verif/seeded/C01-g/patch.diff"),
 }
 ENV = dict(os.environ, GOFLAGS="-mod=mod", GOPROXY="off", GOSUMDB="off", GOTOOLCHAIN="local")
 BASE = "go test -vet=off -count=1 ./bint/... ./eth/... ./jrpc2/... ./shovel/config/... ./shovel/glf/... ./wctx/... ./wos/... ./wslog/..."
